@@ -385,6 +385,9 @@ def run_C05(ctx):
                       {"kind": "c05-trace", "record": tr.depth})
     else:
         ctx.cov["traces_validated_against_impl"] += rec["extra"]["logged"]
+    # the same invariants on accepted skeletons with unusual values (paths, parameter names, JSON-RPC names, tags)
+    xo = ctx.vh("sweep", "c05", "odd:%d:%d" % (ctx.seed, 8000 if ctx.quick else 300000), timeout=3000)
+    ctx.absorb(dict(xo, nontrivial=xo.get("extra", {}).get("accepted", 0)), "V:sweep-c05(skeletons with unusual values)")
     tp2 = os.path.join(ctx.scratch, "c5", "trace_c05.ndjson")
     os.makedirs(os.path.dirname(tp2))
     ctx.vh("corpus-skeletons", REPO, tp2, "corrupt")
@@ -499,6 +502,9 @@ def _sweep_more(ctx, checks, label):
     r2 = ctx.tlc("MC_C01types", cfg="MC_C01types_quick.cfg", timeout=1800)
     x2 = ctx.vh("sweep", checks, "types:" + r2.out, timeout=1800)
     ctx.absorb(dict(x2, nontrivial=x2.get("extra", {}).get("accepted", 0)), "G:sweep-%s(type graphs)" % label)
+    # well-formed skeletons whose slots hold unusual values (paths of '.', '{}', '{@t}', non-ASCII segments, JSON-RPC names, codes ...)
+    x3 = ctx.vh("sweep", checks, "odd:%d:%d" % (ctx.seed, 6000 if ctx.quick else 200000), timeout=3000)
+    ctx.absorb(dict(x3, nontrivial=x3.get("extra", {}).get("accepted", 0)), "V:sweep-%s(skeletons with unusual values)" % label)
 
 
 def run_C04(ctx):
